@@ -208,7 +208,7 @@ Proof.
   intros. split; [|split; [|reflexivity]].
   - split; [simpl; lia|]. intros x Hx _. unfold new_up_conn, new_timer. simpl.
     destruct (Nat.eqb_spec x (w_nup w)); [lia|]. simpl. repeat split; auto.
-  - exists [mkTimer (w_nup w) g (others w g c)]. split; [reflexivity|].
+  - exists [mkTimer (w_nup w) g]. split; [reflexivity|].
     intros t [<-|[]]. simpl. lia.
 Qed.
 
